@@ -49,20 +49,27 @@ ItOps(d, n, s, ops, i) ==
 IterOK(e) == ItOps(e.d, e.n, ItInit(e.d, e.n), e.ops, 1)
 
 (* the obligations of the property alone on a call sequence (used to tell a   *)
-(* broken property from a drift of the ExtIter sub-model): whatever is        *)
+(* broken property from a drift of the ExtIter sub-model).  As long as no     *)
+(* frame_max below n has been set, iterating is determined by the format      *)
+(* (ParseRaw from the last reset) and must be exact.  Otherwise: whatever is  *)
 (* returned lies inside the buffer, belongs to an existing frame below the    *)
-(* frame_max in force, and is an extension of Ext!ParseRaw(d, n)              *)
-RECURSIVE ItObl(_, _, _, _, _)
-ItObl(e, q, ops, i, fmax) ==
+(* frame_max in force, is an extension of Ext!ParseRaw(d, n), and the data is *)
+(* reported invalid only if it is                                            *)
+RECURSIVE ItObl(_, _, _, _, _, _)
+ItObl(e, r, q, ops, i, fmax) ==
   IF i > Len(ops) THEN TRUE
   ELSE LET o == ops[i] IN
        /\ o[3] \in {0, 1, INVALID_PACKET}
+       /\ (o[3] = INVALID_PACKET) => ~r.ok
        /\ (o[1] \in {0, 3} /\ o[3] = 1) =>
              /\ o[5] \in 0..(e.n - 1) /\ o[5] < fmax /\ o[6] + o[7] <= Len(e.d)
              /\ \E j \in 1..Len(q) : q[j] = <<o[4], o[5], o[6], o[7]>>
              /\ o[1] = 3 => o[4] = o[2]
-       /\ ItObl(e, q, ops, i + 1, IF o[1] = 2 THEN o[2] ELSE fmax)
-IterObl(e) == ItObl(e, ExtQuads(ParseRaw(e.d, e.n).exts), e.ops, 1, e.n)
+       /\ ItObl(e, r, q, ops, i + 1, IF o[1] = 2 THEN o[2] ELSE fmax)
+IterObl(e) ==
+  IF \A i \in 1..Len(e.ops) : e.ops[i][1] = 2 => e.ops[i][2] >= e.n
+  THEN IterOK(e)
+  ELSE LET r == ParseRaw(e.d, e.n) IN ItObl(e, r, ExtQuads(r.exts), e.ops, 1, e.n)
 
 (* ---- generate side ---- *)
 XList(l2) == [i \in 1..Len(l2) |-> [id |-> l2[i][1], frame |-> l2[i][2], data |-> l2[i][3]]]
@@ -94,11 +101,17 @@ RpExpected(ins, i, off, b, en) ==
   ELSE LET c == ExtContents(ins[i].pad, ins[i].m)
            mv == [j \in 1..Len(c) |-> [c[j] EXCEPT !.frame = c[j].frame + off - b]] IN
        SelectSeq(mv, LAMBDA x : x.frame >= 0 /\ x.frame < en - b) \o RpExpected(ins, i + 1, off + ins[i].m, b, en)
+(* For every out_range [b, e) - including ranges that cut through an input     *)
+(* packet - the output carries exactly the extensions of the selected audio     *)
+(* frames, each on the output frame that holds its audio frame (i - b), with     *)
+(* identical payloads and the per-frame order preserved.  The driver only cats   *)
+(* packets that are accepted and whose padding is a well-formed extension list   *)
+(* (both are re-checked here, so the obligation cannot hold vacuously).          *)
 RpOK(e) ==
-  (\A i \in 1..Len(e["in"]) : e["in"][i].cat = 0 /\ ParseRaw(e["in"][i].pad, e["in"][i].m).ok) =>
-     /\ e.r > 0
-     /\ e.m = e.e - e.b
-     /\ GenRoundTrip(RpExpected(e["in"], 1, 0, e.b, e.e), e.m, e.pad)
+  /\ \A i \in 1..Len(e["in"]) : e["in"][i].cat = 0 /\ ParseRaw(e["in"][i].pad, e["in"][i].m).ok
+  /\ e.r > 0
+  /\ e.m = e.e - e.b
+  /\ GenRoundTrip(RpExpected(e["in"], 1, 0, e.b, e.e), e.m, e.pad)
 
 CaseOK == LET e == Tr[l] IN
           CASE e.k = "parse" -> ParseOK(e)
